@@ -26,7 +26,7 @@ import (
 //
 // Events
 //   tell            Tell(X, msg)                       handler logs (virtual time) and returns
-//   tellslow        Tell(X, slow)                      handler sleeps 500ms of virtual time (a message
+//   tellslow        Tell(X, slow)                      handler sleeps 333ms of virtual time (a message
 //                                                      told meanwhile waits in the mailbox and is handled
 //                                                      in the same dispatcher turn)
 //   adv(d)          virtual time += d, d in {100ms, T-100ms-1ns, T-1ns, T, T+1ns}
@@ -69,6 +69,10 @@ import (
 const (
 	c12T = time.Second
 	c12N = 2
+	// duration of the slow handler. 333ms: no sum of event deltas and handler durations makes a handler
+	// wake up at the very instant a passivation deadline (= some event or wake-up instant + T) expires,
+	// which would be a real-time race between the worker and the manager goroutine.
+	c12SlowD = 333 * time.Millisecond
 )
 
 type c12Entry struct {
@@ -82,6 +86,7 @@ type c12World struct {
 	log      []c12Entry
 	gate     chan struct{} // PostStop gate (nil = none)
 	gateHeld atomic.Bool
+	inSlow   atomic.Int32
 }
 
 func (w *c12World) add(kind, what string) {
@@ -114,7 +119,9 @@ func (a *c12Actor) Receive(ctx *ReceiveContext) {
 		a.w.add("recv", "msg")
 	case *c12Slow:
 		a.w.add("recv", "slow")
-		time.Sleep(500 * time.Millisecond)
+		a.w.inSlow.Add(1)
+		time.Sleep(c12SlowD)
+		a.w.inSlow.Add(-1)
 	case *c12Fail:
 		a.w.add("recv", "fail")
 		ctx.Err(&c12Err{})
@@ -255,9 +262,16 @@ func c12Run(t *testing.T, sc c12Scenario, c *vsched.Chooser) vsched.Outcome {
 				if sc.strategy == "tb" && lastIdx >= 0 {
 					idle := e.at.Sub(last.at)
 					if idle < c12T-100*time.Millisecond {
-						staleTurn := lastIdx > 0 && log[lastIdx-1].kind == "recv" && log[lastIdx-1].what == "slow" && last.at.Sub(log[lastIdx-1].at) == 500*time.Millisecond
+						// same dispatcher turn as a slow handler: walk back over the messages handled at the
+						// same instant as the last one; the one before them is a slow handler that
+						// returned at exactly that instant.
+						j := lastIdx
+						for j > 0 && log[j-1].kind == "recv" && log[j-1].at.Equal(last.at) {
+							j--
+						}
+						staleTurn := j > 0 && log[j-1].kind == "recv" && log[j-1].what == "slow" && last.at.Sub(log[j-1].at) == c12SlowD
 						if staleTurn {
-							fail("passivated-before-idle-timeout-stale-turn-clock", "last message (%s) handled %v before the passivation, T=%v (it was handled in the same dispatcher turn right after a 500ms handler; the turn stamps activity with the turn's start time)", last.what, idle, c12T)
+							fail("passivated-before-idle-timeout-stale-turn-clock", "last message (%s) handled %v before the passivation, T=%v (it was handled in the same dispatcher turn right after a slow handler returned; runTurn stamps activity with the turn's start time)", last.what, idle, c12T)
 						} else {
 							fail("passivated-before-idle-timeout", "last message (%s) handled %v before the passivation, T=%v slack=100ms", last.what, idle, c12T)
 						}
@@ -369,6 +383,10 @@ func c12Run(t *testing.T, sc c12Scenario, c *vsched.Chooser) vsched.Outcome {
 		}
 		time.Sleep(c12T + 1)
 		vfSettle()
+		for i := 0; i < 4*sc.depth && w.inSlow.Load() > 0; i++ {
+			time.Sleep(c12SlowD)
+			vfSettle()
+		}
 		check()
 		if stopping && !passivated && !killDone.Load() {
 			out.Invalid = "kill did not return"
